@@ -153,3 +153,92 @@ func ruleStripMarker(rule string) func(p *Prog, r *Result) {
 		})
 	}
 }
+
+// ruleSmallContracts(rule, which...): one-line helpers whose meaning other rules assume.
+//   matchdoc : matchDoc(doc, pat) is match(doc.Data, pat)
+//   getcopy  : getCopy resolves the reference against (current document, document list) and returns a deep copy of what it found
+//   getformat: GetFormat(name) is the entry of the format table under exactly that name, unknown names are errors
+//   stdin    : isStdin(path) compares the base name without its extension with "-"
+func ruleSmallContracts(rule string, which ...string) func(p *Prog, r *Result) {
+	return func(p *Prog, r *Result) {
+		for _, w := range which {
+			switch w {
+			case "matchdoc":
+				pr := newPSRule(p, r, rule, "bkl.matchDoc", PSOpts{NoInline: map[string]bool{"bkl.match": true}})
+				pr.all("a document matches a pattern exactly when its data does", pr.paths, "match(doc.Data, pat)", func(pa *Path) (bool, string) {
+					want := mCall("bkl.match", mOp("field", mParam("doc")), mParam("pat"))
+					if pa.End == "return" && want(pa.Results[0]) {
+						return true, ""
+					}
+					return false, "the document's data is not what is matched against the pattern: " + truncate(pa.Results[0].String(), 70)
+				})
+			case "getcopy":
+				pr := newPSRule(p, r, rule, "bkl.getCopy", PSOpts{NoInline: map[string]bool{"bkl.get": true, "bkl.deepClone": true}})
+				g := mCall("bkl.get", mParam("mergeFrom"), mParam("mergeFromDocs"), mParam("v"))
+				pr.all("the copy handed out is a deep copy of exactly what the reference resolves to", pr.paths, "get(mergeFrom, mergeFromDocs, v), error propagated, deepClone of its result", func(pa *Path) (bool, string) {
+					if !hasCallEffect(pa, "bkl.get", mParam("mergeFrom"), mParam("mergeFromDocs"), mParam("v")) {
+						return false, "the reference is not resolved against the current document and the document list"
+					}
+					switch guardPol(pa, "err", g, nil) {
+					case 1:
+						if isFailure(pa) && mResOf(1, g)(lastResult(pa)) {
+							return true, ""
+						}
+						return false, "a reference that does not resolve is not an error"
+					case -1:
+						c := mCall("bkl.deepClone", mResOf(0, g))
+						if mResOf(0, c)(pa.Results[0]) && mResOf(1, c)(lastResult(pa)) {
+							return true, ""
+						}
+						return false, "what is returned is not a deep copy of the resolved value: " + truncate(pa.Results[0].String(), 70)
+					}
+					return false, "the lookup's error is not checked"
+				})
+			case "getformat":
+				pr := newPSRule(p, r, rule, "bkl.GetFormat", PSOpts{})
+				tbl := func(t *T) bool { return t.Op == "global" && t.Name == "formatByExtension" }
+				pr.all("a format is found under exactly the name asked for", pr.paths, "formatByExtension[name], else ErrUnknownFormat", func(pa *Path) (bool, string) {
+					switch guardPol(pa, "has", tbl, TM(mParam("name"))) {
+					case 1:
+						if !isSuccess(pa) {
+							return false, "a known format name is rejected"
+						}
+						for _, e := range pa.Effects {
+							if e.Kind == "ptrset" && len(e.Args) == 2 && e.Args[0].String() == pa.Results[0].String() && mLookup(tbl, mParam("name"))(e.Args[1]) {
+								return true, ""
+							}
+						}
+						if mLookup(tbl, mParam("name"))(pa.Results[0]) {
+							return true, ""
+						}
+						return false, "the format returned is not the table entry of that name"
+					case -1:
+						if isFailure(pa) && wraps(lastResult(pa), "ErrUnknownFormat") {
+							return true, ""
+						}
+						return false, "an unknown format name is accepted"
+					}
+					return false, "the name is not looked up in the format table"
+				})
+			case "stdin":
+				pr := newPSRule(p, r, rule, "bkl.isStdin", PSOpts{})
+				pr.all("only the name - (with any extension) stands for standard input", pr.paths, `a comparison of the path's base name, minus its extension, with "-"`, func(pa *Path) (bool, string) {
+					res := pa.Results[0]
+					if res.Op == "binop" && res.Name == "==" {
+						for i := 0; i < 2; i++ {
+							if mStr("-")(res.Args[i]) && len(res.Args[1-i].Find(func(t *T) bool { return t.Op == "call" && t.Name == "path/filepath.Base" && t.Args[0].IsParam("path") })) > 0 {
+								return true, ""
+							}
+						}
+					}
+					if g := guardPol(pa, "streq", func(t *T) bool {
+						return len(t.Find(func(x *T) bool { return x.Op == "call" && x.Name == "path/filepath.Base" })) > 0
+					}, q("-")); g != 0 && (res.IsConst("true") || res.IsConst("false")) && (g == 1) == res.IsConst("true") {
+						return true, ""
+					}
+					return false, "standard input is recognised by something other than the base name being -: " + truncate(res.String(), 70)
+				})
+			}
+		}
+	}
+}
